@@ -198,8 +198,8 @@ def families(tier, seed):
         fams.append(Family('segment/%s' % fr, fam_segment, (fr,), must_reach=('ok',)))
         for sh in (('tri', 'quad') if tier == 'quick' else ('tri', 'quad', 'penta', 'hexa')):
             fams.append(Family('pyramid/%s@%s' % (sh, fr), fam_pyramid, (sh, fr), must_reach=('ok',)))
-    shapes = [('tri', 'axis'), ('quad', 'axis'), ('penta', 'axis'), ('quad', 'oblique')] if tier == 'quick' else \
-        [(s, f) for s in ('tri', 'quad', 'penta', 'hexa') for f in ('axis', 'oblique', 'pyth3')]
+    shapes = [('tri', 'axis'), ('quad', 'axis'), ('penta', 'axis'), ('quad', 'oblique'), ('para12', 'axis')] if tier == 'quick' else \
+        [(s, f) for s in ('tri', 'quad', 'penta', 'hexa', 'para12') for f in ('axis', 'oblique', 'pyth3')]
     for sh, fr in shapes:
         n = len(B.UNIT_POLYS[sh])
         perms = [list(range(n)), list(reversed(range(n)))] + [rng.sample(range(n), n) for _ in range(1 if tier == 'quick' else 4)]
